@@ -321,6 +321,10 @@ def closedLoop (direct trans : Dict) (ord : List Nat → List Nat) :
           closedLoop direct trans ord fuel (toVisit' ++ ord ((dget trans el).getD []))
             (addElem visited el) (dset closed el cl)
 
+/-- a fuel that always suffices for the worklist on `n` elements (each pop lowers the potential
+    `Σ (n+1)^|ancestors|` of the worklist; lemma `closedByDirect_ok`) -/
+def closedFuel (n : Nat) : Nat := (n + 1) ^ (n + 1)
+
 /-- `_closed_relation_cache_by_direct_cache` -/
 def closedByDirect (direct : Dict) (ord : List Nat → List Nat) (fuel : Nat) : Except PyErr Dict :=
   let trans := transposeHierarchy direct
